@@ -281,26 +281,30 @@ Fixpoint min_entry {A} (cur : bytes * A) (l : list (bytes * A)) : bytes * A :=
   | x :: r => if bytes_ltb (fst x) (fst cur) then min_entry x r else min_entry cur r
   end.
 
-Definition POWER_TIME_UNKNOWN : Z := -1.
-Definition POWER_TIME_UNLIMITED : Z := -2.
+(* Python TYPES of the fields matter: secsleft IS one of the documented constants psutil.POWER_TIME_UNLIMITED /
+   POWER_TIME_UNKNOWN (members of the BatteryTime IntEnum) or a plain int; percent is a float when computed from
+   now/full and the kernel's int when taken from "capacity" *)
+Inductive rsecs := RUnlimited | RUnknown | RSecs (z : Z).
+Inductive rnum := RInt (z : Z) | RFloat (q : Q).
+Definition rnum_q (x : rnum) : Q := match x with RInt z => inject_Z z | RFloat q => q end.
 
-Record battery := { bt_percent : Q; bt_secsleft : Z; bt_plugged : option bool }.
+Record battery := { bt_percent : rnum; bt_secsleft : rsecs; bt_plugged : option bool }.
 
 Definition s_discharging := bs "discharging".
 Definition s_charging := bs "charging".
 Definition s_full := bs "full".
 
 (* percent: None = "return None" (no capacity information at all) *)
-Definition percent_of (energy_full energy_now : option mval) (capacity : fres) : outcome (option Q) :=
+Definition percent_of (energy_full energy_now : option mval) (capacity : fres) : outcome (option rnum) :=
   match energy_full, energy_now with
   | Some f, Some n =>
     match f, n with
-    | MI f, MI n => Val (Some (if f =? 0 then 0%Q else (100 * inject_Z n / inject_Z f)%Q))
+    | MI f, MI n => Val (Some (RFloat (if f =? 0 then 0%Q else (100 * inject_Z n / inject_Z f)%Q)))
     | _, _ => Exc TypeError
     end
   | _, _ =>
     match capacity with
-    | FC c => do p <- py_int c; Val (if p =? -1 then None else Some (inject_Z p))
+    | FC c => do p <- py_int c; Val (if p =? -1 then None else Some (RInt p))
     | _ => Val None
     end
   end.
@@ -317,22 +321,22 @@ Definition plugged_of (online : option mval) (status : fres) : option bool :=
 
 (* [signed_div] = true: the code before commit 90bacb2 (energy_now / power_now, signed); false = the code as it
    is (energy_now / abs(power_now)) *)
-Definition secs_of (signed_div : bool) (plugged : option bool) (energy_now power_now time_to_empty : option mval) : outcome Z :=
+Definition secs_of (signed_div : bool) (plugged : option bool) (energy_now power_now time_to_empty : option mval) : outcome rsecs :=
   match plugged with
-  | Some true => Val POWER_TIME_UNLIMITED
+  | Some true => Val RUnlimited
   | _ =>
     match energy_now, power_now with
     | Some n, Some p =>
       match n, p with
-      | MI n, MI p => Val (if p =? 0 then POWER_TIME_UNKNOWN else Z.quot (n * 3600) (if signed_div then p else Z.abs p))
+      | MI n, MI p => Val (if p =? 0 then RUnknown else RSecs (Z.quot (n * 3600) (if signed_div then p else Z.abs p)))
       | _, _ => Exc TypeError
       end
     | _, _ =>
       match time_to_empty with
-      | Some (MI t) => Val (if t * 60 <? 0 then POWER_TIME_UNKNOWN else t * 60)
+      | Some (MI t) => Val (if t * 60 <? 0 then RUnknown else RSecs (t * 60))
       | Some (MB b) => do s <- py_int (concat (repeat b 60));
-                       Val (if s <? 0 then POWER_TIME_UNKNOWN else s)
-      | None => Val POWER_TIME_UNKNOWN
+                       Val (if s <? 0 then RUnknown else RSecs s)
+      | None => Val RUnknown
       end
     end
   end.
